@@ -38,7 +38,23 @@ Subset (everything else raises Untranslatable; nothing is special-cased by funct
     whose state is the tuple of the variables assigned in the body that exist before the loop), `continue`, statement
     calls of translated state methods (`self._sort_spectrum()`: the caller's attribute state is updated).
 Totalisations (numpy / Python raise instead): out-of-range index -> default 0; `a - b` on indices is the truncated
-subtraction of Nat; arrays of different lengths in an element-wise operation -> `[]`."""
+subtraction of Nat; arrays of different lengths in an element-wise operation -> `[]`.
+
+File containers (C17: `TaurexSpectrum._load_from_hdf5`, `ObservedSpectrum.__init__`):
+  * kind 'str': a string the code only passes on (a file name): Lean `String`, no operations;
+  * `resources={'h5py.File': dict(lean='h5', args=['str', ('const', 'r')], datasets={'A/B/name': 'list', …})}`:
+    `with h5py.File(filename, 'r') as f:` binds `f` to an OPEN READ-ONLY HDF5 file for the statements of the `with` body
+    (after it `f` is gone).  `f['A']['B']` is a group; `x = f['A']['B']['name'][:]` (or `[...]`), the read of a whole
+    dataset, must be the right-hand side of an assignment to a name.  The content of the file is an input: the dataset
+    becomes the parameter `h5_A_B_name : Option (List α)` (the name is the resource's `lean` prefix + the path strings of
+    the source text; `none` = the file has no such object, the read raises KeyError).  The read is translated as
+    `match h5_A_B_name with | none => <KeyError> | some v__ => let x := v__ …`: `<KeyError>` is the handler of the
+    enclosing `try: … except KeyError:` (one handler, it must end in raise / return, no else / finally, the `try` body is
+    a sequence of assignments), or, outside a `try`, the function's declared `raise_value` (the exception propagates);
+  * `np.vstack((a, b, …))` of 1-D arrays: the 2-D array with these rows; `M.T` of a 2-D array: `Np.transpose`;
+  * `resolve_super=True`: the statement `super().__init__(…)` in a class with exactly one base `B` runs the translated
+    `B.__init__` (the spec whose `callname` is `B`) on the caller's attribute state (otherwise it is ignored, see
+    `ignore_calls`)."""
 import ast
 import re
 
@@ -61,6 +77,11 @@ def is_fn(t):
     return isinstance(t, tuple) and t[0] == 'fn'
 
 
+def is_h5(t):
+    """('h5', resource key, path): an open HDF5 file (path ()) or one of its groups / datasets"""
+    return isinstance(t, tuple) and t[0] == 'h5'
+
+
 def simple(txt):
     return re.fullmatch(r"[\w.']+", txt) is not None
 
@@ -73,6 +94,12 @@ class VFn(Fn):
         self.ret = None
         self.gen = {}                                    # key -> number of bindings so far (see check_carried)
         self.ignore_calls = spec.get('ignore_calls', r'^(self\.(debug|info|warning|error|critical)\(|super\(\)\.__init__\()')
+        self.resources = dict(spec.get('resources', {}))  # 'h5py.File' -> dict(lean, args, datasets{path: kind})
+        self.in_try = False
+        self.bases = None                                # texts of the base classes of the method's class
+        for n in tree.body:
+            if isinstance(n, ast.ClassDef) and n.name == spec.get('cls'):
+                self.bases = [ast.unparse(b) for b in n.bases]
 
     # ------------------------------------------------------------------ types
     def lean_ty(self, k):
@@ -89,6 +116,10 @@ class VFn(Fn):
             return '(' + ' → '.join(self.lean_ty(x) for x in list(k[1]) + [k[2]]) + ')'
         if k == 'fullslice':
             return 'Unit'
+        if k == 'str':
+            return 'String'
+        if is_h5(k):
+            self.fail(None, 'an HDF5 file / group used as a value')
         return super().lean_ty(k)
 
     def default(self, ty, node=None):
@@ -286,6 +317,8 @@ class VFn(Fn):
     def call_known(self, name, argnodes, node, env, keywords=()):
         tgt = self.known[name]
         kinds = tgt['arg_kinds']
+        if self.in_try and tgt.get('raises'):
+            self.fail(node, 'call of a function that may raise inside a try block')
         if len(argnodes) > len(kinds):
             self.fail(node, 'call of %s with more arguments than its definition' % name)
         if keywords:
@@ -461,6 +494,10 @@ class VFn(Fn):
             if not parts:
                 self.fail(node, 'empty concatenate')
             return '(' + ' ++ '.join(parts) + ')', 'list'
+        if isnp and short == 'vstack' and len(A) == 1 and not node.keywords and isinstance(A[0], (ast.List, ast.Tuple)) \
+                and A[0].elts:
+            # np.vstack of 1-D arrays: the 2-D array whose rows they are (numpy raises unless the lengths agree)
+            return '[' + ', '.join(self.co(self.tx(e, env), 'list', e) for e in A[0].elts) + ']', 'rows'
         if isnp and short == 'zeros' and len(A) + len(node.keywords) == 1:
             kw = self.kw(node, ('shape',))
             dims = self.shape(A[0] if A else kw['shape'], env)
@@ -554,6 +591,12 @@ class VFn(Fn):
         if isinstance(node, ast.Attribute):
             if node.attr == 'shape':
                 self.fail(node, 'a shape used as a value')
+            if node.attr == 'T' and not (isinstance(node.value, ast.Name) and node.value.id == 'self'):
+                bt, bty = self.tx(node.value, env)
+                if bty != 'rows':
+                    self.fail(node, 'transpose of a %s' % (bty,))
+                self.literals.add(0)
+                return '(Np.transpose (0 : α) %s)' % bt, 'rows'
             return self.attr_read(node, env)
         if isinstance(node, ast.UnaryOp):
             if isinstance(node.op, ast.UAdd):
@@ -673,6 +716,12 @@ class VFn(Fn):
                 return dims[i.value], 'nat'
             self.fail(node, 'unsupported shape subscript')
         bt, bty = self.tx(base, env)
+        if is_h5(bty):
+            i = node.slice
+            if isinstance(i, ast.Constant) and isinstance(i.value, str):
+                return bt, ('h5', bty[1], bty[2] + (i.value,))          # a group / dataset of the open file
+            self.fail(node, 'an HDF5 object may only be indexed by a string literal, or read whole (`x = d[:]`) as the '
+                            'right-hand side of an assignment')
         idxs = self.strip_ellipsis(node.slice)
         if is_tuple(bty):
             if len(idxs) != 1:
@@ -776,7 +825,7 @@ class VFn(Fn):
                         (self.vassigned(s.orelse, env) if r is not True else []):
                     add(k)
             elif isinstance(s, ast.Expr) and isinstance(s.value, ast.Call):
-                f = ast.unparse(s.value.func)
+                f = self.stmt_call_name(s.value)
                 if f in self.known and self.known[f].get('state'):
                     for k in self.known[f]['state']:
                         add(k)
@@ -904,6 +953,53 @@ class VFn(Fn):
             e = '((%s.getD %s (0 : α)) %s %s)' % (a, ix, op, e)
         return '%slet %s := (List.set %s %s %s)\n' % (ind, a, a, ix, e)
 
+    def stmt_call_name(self, call):
+        """the `known` key of a call statement: `super().__init__` resolves (opt-in `resolve_super`) to the `__init__` of
+        the single base class of the method's class, registered under the class name"""
+        f = ast.unparse(call.func)
+        if f == 'super().__init__' and self.spec.get('resolve_super'):
+            if not self.bases or len(self.bases) != 1:
+                self.fail(call, 'super().__init__ in a class that does not have exactly one base')
+            if self.bases[0] not in self.known or not self.known[self.bases[0]].get('state'):
+                self.fail(call, 'super().__init__: the __init__ of %s is not translated' % self.bases[0])
+            return self.bases[0]
+        return f
+
+    def h5_read(self, node, env):
+        """`d[:]` / `d[...]` on a dataset of an open HDF5 file -> (parameter name, kind), else None"""
+        if not isinstance(node, ast.Subscript):
+            return None
+        i = node.slice
+        whole = (isinstance(i, ast.Slice) and i.lower is None and i.upper is None and i.step is None) or \
+            (isinstance(i, ast.Constant) and i.value is Ellipsis)
+        if not whole:
+            return None
+        snap = self.snapshot()
+        try:
+            _, ty = self.tx(node.value, env)
+        except Untranslatable:
+            self.restore(snap)
+            return None
+        if not is_h5(ty):
+            self.restore(snap)
+            return None
+        res = self.resources[ty[1]]
+        path = '/'.join(ty[2])
+        if path not in res.get('datasets', {}):
+            self.fail(node, 'read of an undeclared dataset %r' % path)
+        kind = res['datasets'][path]
+        nm = lname(re.sub(r'\W', '_', res['lean'] + '_' + '_'.join(ty[2])))
+        self.add_param(nm, 'Option (%s)' % self.lean_ty(kind))
+        return nm, kind
+
+    def cont_text(self, rest, ind, tail, ctx):
+        """the continuation of a nested statement list (`with` / `try` body): a `tail` that translates `rest`"""
+        def k(e):
+            if not rest and tail is None:
+                raise Untranslatable('%s: a path does not end in return' % self.spec['func'])
+            return self.block(rest, e, ind, tail, ctx).strip(' ').rstrip('\n') if rest else tail(e)
+        return k
+
     def block(self, stmts, env, ind, tail, ctx=None):
         """statements -> text of a Lean term.  `tail(env)`: the value when the block falls through (None: must jump);
         ctx['cont'](env): the value of `continue`.  `env` is the caller's copy and is updated in place."""
@@ -915,8 +1011,72 @@ class VFn(Fn):
                 continue
             if isinstance(s, (ast.Pass, ast.Import, ast.ImportFrom)):
                 continue
+            if isinstance(s, ast.With) and self.resources:
+                # `with <resource>(…) as f:` — f is the open read-only file in the body and gone after it
+                if len(s.items) != 1 or not isinstance(s.items[0].context_expr, ast.Call) \
+                        or not isinstance(s.items[0].optional_vars, ast.Name) or ctx.get('cont'):
+                    self.fail(s, 'unsupported with statement')
+                c = s.items[0].context_expr
+                key = ast.unparse(c.func)
+                if key not in self.resources or c.keywords or len(c.args) != len(self.resources[key]['args']):
+                    self.fail(s, 'with: undeclared resource / arguments')
+                for a, k in zip(c.args, self.resources[key]['args']):
+                    if isinstance(k, tuple) and k[0] == 'const':
+                        if not (isinstance(a, ast.Constant) and a.value == k[1] and type(a.value) is type(k[1])):
+                            self.fail(s, 'with: argument is not the declared constant %r' % (k[1],))
+                    elif self.tx(a, env)[1] != k:
+                        self.fail(s, 'with: argument is not a %s' % (k,))
+                f = s.items[0].optional_vars.id
+                env[f] = ('h5', key, ())
+                self.gen[f] = self.gen.get(f, 0) + 1
+
+                def after(e, f=f, rest=rest):
+                    e.pop(f, None)
+                    return self.cont_text(rest, ind, tail, ctx)(e)
+                return out + self.block(s.body, env, ind, after, ctx)
+            if isinstance(s, ast.Try) and self.resources:
+                # try: <assignments, some of them dataset reads>  except KeyError: <… raise / return>
+                h = s.handlers[0] if len(s.handlers) == 1 else None
+                if h is None or s.orelse or s.finalbody or not isinstance(h.type, ast.Name) or h.type.id != 'KeyError' \
+                        or not self.jumps(h.body) or isinstance(h.body[-1], ast.Continue) or ctx.get('cont') \
+                        or not all(isinstance(b, ast.Assign) for b in s.body):
+                    self.fail(s, 'unsupported try statement')
+                outer = ctx
+
+                def handler(e, h=h, outer=outer):
+                    was, self.in_try = self.in_try, outer.get('keyerror') is not None
+                    try:
+                        txt = self.block(h.body, dict(e), ind + '    ', None, outer).strip(' ').rstrip('\n')
+                    finally:
+                        self.in_try = was
+                    return '(\n%s    %s\n%s  )' % (ind, txt, ind) if '\n' in txt else txt
+                was, self.in_try = self.in_try, True
+                try:
+                    def after_try(e, was=was, rest=rest):
+                        self.in_try = was
+                        return self.cont_text(rest, ind, tail, ctx)(e)
+                    return out + self.block(s.body, env, ind, after_try, dict(ctx, keyerror=handler))
+                finally:
+                    self.in_try = was
+            if isinstance(s, ast.Assign) and len(s.targets) == 1 and isinstance(s.targets[0], ast.Name) and self.resources:
+                rd = self.h5_read(s.value, env)
+                if rd is not None:
+                    # the read of a whole dataset: `none` = no such object in the file = KeyError
+                    if ctx.get('cont'):
+                        self.fail(s, 'dataset read inside a loop')
+                    if ctx.get('keyerror'):
+                        failtxt = ctx['keyerror'](env)
+                    elif self.raise_value is not None:
+                        for n in re.findall(r'\((\d+) : α\)', self.raise_value):
+                            self.literals.add(int(n))
+                        failtxt = self.raise_value
+                    else:
+                        self.fail(s, 'dataset read outside a try (no total value declared for the KeyError)')
+                    head = '%smatch %s with\n%s| none => %s\n%s| some v__ =>\n' % (ind, rd[0], ind, failtxt, ind)
+                    head += self.bind(s.targets[0], 'v__', rd[1], env, ind, s)
+                    return out + head + self.block(rest, env, ind, tail, ctx)
             if isinstance(s, ast.Expr) and isinstance(s.value, ast.Call):
-                f = ast.unparse(s.value.func)
+                f = self.stmt_call_name(s.value)
                 if f in self.known and self.known[f].get('state'):
                     txt, ty = self.call_known(f, s.value.args, s, env)
                     keys = self.known[f]['state']
@@ -1147,5 +1307,6 @@ class VFn(Fn):
         extra = ''.join(' (%s : %s)' % (n, t) for n, t in self.extra_params)
         head = 'def %s %s%s : %s :=\n' % (self.spec.get('lean', self.spec['func']), ' '.join(params), extra,
                                            self.lean_ty(self.ret))
-        self.known_extra = dict(ret=self.ret, state=list(self.state), prop=bool(self.spec.get('prop')))
+        self.known_extra = dict(ret=self.ret, state=list(self.state), prop=bool(self.spec.get('prop')),
+                                raises=self.raise_value is not None)
         return head + body
